@@ -276,8 +276,8 @@ H(P, "c09", "c09_apply_compose_4x4", ("bare",), "affine 4x4, entries in {-1,0,1,
 H(P, "c09", "c09_apply_compose_3x3", ("bare",), "affine 3x3, entries in [-3,3]; probes in [-4,4]^2", "(A o B)v == A(Bv) exactly", unwind=6, est=120)
 for perm in ("012", "021", "102", "120", "201", "210"):
     H(P, "c09", f"c09_inverse_perm_{perm}", ("bare",), f"M = P({perm}) * diag(+-2^k) * T, k in [-2,2], t in [-3,3]^3", "inverse() does not panic; M^-1 o M == I == M o M^-1 exactly", unwind=6, est=200, cap=900)
-for w in ("upper", "lower"):
-    H(P, "c09", f"c09_inverse_shear_{w}", ("bare",), f"{w}-triangular M: diagonal +-2^k (|k|<=1), integer shear entries in [-2,2], integer translation in [-2,2]^3", "inverse() does not panic; M^-1 o M == I == M o M^-1 exactly", unwind=6, est=400, cap=1200)
+H(P, "c09", "c09_inverse_shear_upper", ("bare",), "upper-triangular M: diagonal +-2^k (|k|<=1), integer shear entries in [-2,2], integer translation in [-2,2]^3", "inverse() does not panic; M^-1 o M == I == M o M^-1 within 1e-5 (exact here)", unwind=6, est=500, cap=1500)
+H(P, "c09", "c09_inverse_shear_lower", ("bare",), "lower-triangular M: same family (elimination below the diagonal, pivots that are not powers of two)", "inverse() does not panic; M^-1 o M == I == M o M^-1 within 1e-5", unwind=6, est=2000, cap=2700, tiers=("thorough",))
 H(P, "c09", "c09_translate", ("bare",), "arbitrary finite floats |.| <= 2^60", "translate(t).apply_pt(p) == p + t exactly; det == 1", unwind=6, est=150, cap=900)
 H(P, "c09", "c09_constructors", ("bare",), "arbitrary finite floats |.| <= 2^60", "translate/scale/from_basis defining effect exactly; det(translate) == 1", unwind=6, est=120)
 H(P, "c09", "c09_scale_determinant", ("bare",), "integer scale factors in [-8,8]^3", "det(scale) == x*y*z; identity", unwind=6, est=30)
